@@ -395,6 +395,7 @@ if (props.includes('C02')) {
   const mk = (label, f) => { try { schemaDocs.push(Object.assign({ label }, f())); } catch (e) { schemaDocs.push({ label, threw: String(e && e.message).slice(0, 160) }); } };
   if (!job.recursive) mk('flat', () => { const J = parser.schema(); return { root: J, J }; });      // the flat schema is claimed for non-recursive types only
   mk('contextual #/$defs', () => { const c = new rt.SchemaPrintingContext({ refPathTemplate: '#/$defs/{name}', definitionContainerKey: '$defs' }); const J = parser.schemaWithContext(c); const d = c.exportDefinitions(); return { root: Object.assign({}, J, d), J }; });
+  mk('contextual #/$defs, second context', () => { const c = new rt.SchemaPrintingContext({ refPathTemplate: '#/$defs/{name}', definitionContainerKey: '$defs' }); const J = parser.schemaWithContext(c); const d = c.exportDefinitions(); return { root: Object.assign({}, J, d), J }; });
   mk('contextual #/components/schemas', () => { const c = new rt.SchemaPrintingContext({ refPathTemplate: '#/components/schemas/{name}', definitionContainerKey: null }); const J = parser.schemaWithContext(c); const d = c.exportDefinitions(); return { root: Object.assign({}, J, { components: { schemas: d } }), J }; });
 }
 function isParseFailure(e) { return e instanceof Error && typeof e.message === 'string' && e.message.startsWith('Failed to parse '); }
